@@ -211,7 +211,7 @@ def failing(results):
     return {k: v for k, v in results.items() if v["status"] not in ("OK",)}
 
 
-STRUCT_OPS = ("hist", "cfg", "open", "begin", "commit", "close")
+STRUCT_OPS = ("hist", "cfg", "open", "begin", "commit", "close", "drop", "reopen")
 
 
 def shrink_history(scratch, hist_lines, still_fails, max_runs=400):
